@@ -260,47 +260,74 @@ theorem add_assoc'' (t : Time) (a b ab : Delta) (ht : TValid t) (ha : DInv a) (h
 
 /-! ### `std::time::Duration` operands -/
 
-/-- without a leap operand only the amount modulo one day matters -/
-theorem addLeap_periodic (t : Time) (δ k : Int) (ht : TValid t) (hnl : t.frac < 1000000000) :
+/-- once the amount is a day or more (in either direction), further whole days do not change the
+time of day — also for a leap-second operand, which has been left by then -/
+theorem addLeap_periodic_far (t : Time) (δ k : Int) (ht : TValid t)
+    (h : (86400000000000 ≤ δ ∧ 0 ≤ k) ∨ (δ ≤ -86400000000000 ∧ k ≤ 0)) :
     (addLeap t (δ + k * 86400000000000)).1 = (addLeap t δ).1 := by
   obtain ⟨s, f⟩ := t
   simp only [TValid] at ht
-  simp only [] at hnl
   unfold addLeap pos
   simp only []
-  rw [if_neg (by omega), if_neg (by omega), if_neg (by omega), if_neg (by omega)]
-  simp only [Time.mk.injEq]
-  omega
+  rcases h with h | h
+  · leap_cases
+  · leap_cases
 
-theorem std_nonleap' (t : Time) (secs nanos : Int) (ht : TValid t) (hnl : t.frac < 1000000000)
+theorem time_std_spec' (t : Time) (secs nanos : Int) (ht : TValid t) (hs : 0 ≤ secs)
     (hn : 0 ≤ nanos ∧ nanos < 1000000000) :
     Time.add_std t secs nanos = .ok (addLeap t (secs * 1000000000 + nanos)).1 ∧
     Time.sub_std t secs nanos = .ok (addLeap t (-(secs * 1000000000 + nanos))).1 := by
-  have h2 : (2 * 24 * 60 * 60 : Int) = 172800 := by decide
-  have hnew : Delta.new (secs % 172800) nanos = some ⟨secs % 172800, nanos⟩ := by
-    rw [new_iff' _ _ hn.1, if_pos]
-    simp only [nsInRange, ns, NS_MAX]
-    omega
-  have hd : DInv ⟨secs % 172800, nanos⟩ := by
-    simp only [DInv, nsInRange, ns, NS_MAX]
-    omega
-  have e1 : secs * 1000000000 + nanos =
-      ns ⟨secs % 172800, nanos⟩ + (2 * (secs / 172800)) * 86400000000000 := by
-    simp only [ns]; omega
-  have e2 : -(secs * 1000000000 + nanos) =
-      -(ns ⟨secs % 172800, nanos⟩) + (-(2 * (secs / 172800))) * 86400000000000 := by
-    simp only [ns]; omega
-  constructor
-  · unfold Time.add_std
-    rw [h2, hnew]
-    simp only []
-    unfold Time.add
-    rw [add_spec' t _ ht hd, rbind_ok, e1, addLeap_periodic t _ _ ht hnl]
-  · unfold Time.sub_std
-    rw [h2, hnew]
-    simp only []
-    unfold Time.sub
-    rw [sub_spec' t _ ht hd, rbind_ok, e2, addLeap_periodic t _ _ ht hnl]
+  by_cases hb : secs ≥ 86400
+  · have hred : Time.std_reduce secs = secs % 86400 + 86400 := by
+      unfold Time.std_reduce; rw [if_pos hb]
+    have hnew : Delta.new (secs % 86400 + 86400) nanos = some ⟨secs % 86400 + 86400, nanos⟩ := by
+      rw [new_iff' _ _ hn.1, if_pos]
+      simp only [nsInRange, ns, NS_MAX]
+      omega
+    have hd : DInv ⟨secs % 86400 + 86400, nanos⟩ := by
+      simp only [DInv, nsInRange, ns, NS_MAX]
+      omega
+    have e1 : secs * 1000000000 + nanos =
+        ns ⟨secs % 86400 + 86400, nanos⟩ + (secs / 86400 - 1) * 86400000000000 := by
+      simp only [ns]; omega
+    have e2 : -(secs * 1000000000 + nanos) =
+        -(ns ⟨secs % 86400 + 86400, nanos⟩) + (-(secs / 86400 - 1)) * 86400000000000 := by
+      simp only [ns]; omega
+    have hbig : 86400000000000 ≤ ns ⟨secs % 86400 + 86400, nanos⟩ := by simp only [ns]; omega
+    constructor
+    · unfold Time.add_std
+      rw [hred, hnew]
+      simp only []
+      unfold Time.add
+      rw [add_spec' t _ ht hd, rbind_ok, e1,
+        addLeap_periodic_far t _ _ ht (Or.inl ⟨hbig, by omega⟩)]
+    · unfold Time.sub_std
+      rw [hred, hnew]
+      simp only []
+      unfold Time.sub
+      rw [sub_spec' t _ ht hd, rbind_ok, e2,
+        addLeap_periodic_far t _ _ ht (Or.inr ⟨by omega, by omega⟩)]
+  · have hred : Time.std_reduce secs = secs := by
+      unfold Time.std_reduce; rw [if_neg hb]
+    have hnew : Delta.new secs nanos = some ⟨secs, nanos⟩ := by
+      rw [new_iff' _ _ hn.1, if_pos]
+      simp only [nsInRange, ns, NS_MAX]
+      omega
+    have hd : DInv ⟨secs, nanos⟩ := by
+      simp only [DInv, nsInRange, ns, NS_MAX]
+      omega
+    have e : ns ⟨secs, nanos⟩ = secs * 1000000000 + nanos := rfl
+    constructor
+    · unfold Time.add_std
+      rw [hred, hnew]
+      simp only []
+      unfold Time.add
+      rw [add_spec' t _ ht hd, rbind_ok, e]
+    · unfold Time.sub_std
+      rw [hred, hnew]
+      simp only []
+      unfold Time.sub
+      rw [sub_spec' t _ ht hd, rbind_ok, e]
 
 /-! ### constructors -/
 
